@@ -8,7 +8,7 @@ import json
 import signal
 
 import sgr
-from vcheck import Machinery, pmap
+from vcheck import Machinery, pmap, guarded
 
 NONE = 99
 
@@ -199,6 +199,7 @@ def sgr_strip(s):
     return ''.join(v for k, v in sgr.items(s) if k == 'ch')
 
 
+@guarded(lambda m: (m, None, []))
 def _job(hist):
     return replay_history(hist)
 
